@@ -65,6 +65,7 @@ fn main() {
 }
 
 struct Collect {
+    fn_items: Vec<Ty>,
     tys: BTreeMap<usize, Ty>,
     spans: BTreeMap<usize, Span>,
     allocs: BTreeMap<usize, AllocId>,
@@ -108,6 +109,9 @@ impl MirVisitor for Collect {
             self.add_alloc(a);
         }
         self.add_ty(c.ty());
+        if let TyKind::RigidTy(RigidTy::FnDef(..)) = c.ty().kind() {
+            self.fn_items.push(c.ty());
+        }
         self.super_mir_const(c, l);
     }
     fn visit_ty_const(&mut self, c: &TyConst, _l: Location) {
@@ -237,7 +241,7 @@ fn analyse(out: &str) -> ControlFlow<()> {
         roots_json.push(json!({"def": n, "inst": k}));
     }
 
-    let mut col = Collect { tys: BTreeMap::new(), spans: BTreeMap::new(), allocs: BTreeMap::new(), alloc_queue: Vec::new() };
+    let mut col = Collect { fn_items: Vec::new(), tys: BTreeMap::new(), spans: BTreeMap::new(), allocs: BTreeMap::new(), alloc_queue: Vec::new() };
     let local_name = krate.name.clone();
     let dump_all = std::env::var("FALCON_FACTS_BODIES").map(|v| v == "all").unwrap_or(true);
     let mut inst_json: Vec<Value> = Vec::new();
@@ -279,6 +283,10 @@ fn analyse(out: &str) -> ControlFlow<()> {
                                 let src = op.ty(body.locals()).ok();
                                 if let (Some(sp), Some(tp)) = (src.and_then(pointee), pointee(*target)) {
                                     if let Some(principal) = tp.kind().trait_principal() {
+                                        if !principal.bound_vars.is_empty() || has_bound_region(sp) {
+                                            edges.push(json!({"bb": bbi, "st": si, "k": "unsize_opaque", "from_ty": format!("{}", sp), "to_ty": format!("{}", tp)}));
+                                            continue;
+                                        }
                                         let tr = principal.with_self_ty(sp).skip_binder();
                                         let mut methods = Vec::new();
                                         for (idx, e) in tr.vtable_entries().into_iter().enumerate() {
@@ -324,6 +332,20 @@ fn analyse(out: &str) -> ControlFlow<()> {
                     _ => {}
                 }
             }
+            // function items used as values (e.g. `.map(Felt::new)`): resolve them like calls
+            let items: Vec<Ty> = std::mem::take(&mut col.fn_items);
+            let mut seen_items: BTreeSet<usize> = BTreeSet::new();
+            for t in items {
+                if !seen_items.insert(t.to_index()) {
+                    continue;
+                }
+                if let TyKind::RigidTy(RigidTy::FnDef(def, args)) = t.kind() {
+                    if let Ok(i) = Instance::resolve(def, &args) {
+                        let tk = intern(i, &mut ids, &mut insts, &mut queue);
+                        edges.push(json!({"k": "fnitem", "to": tk, "ty": t.to_index()}));
+                    }
+                }
+            }
             // follow allocations reachable from constants (functions, vtables, statics)
             while let Some(a) = col.alloc_queue.pop() {
                 match GlobalAlloc::from(a) {
@@ -341,6 +363,9 @@ fn analyse(out: &str) -> ControlFlow<()> {
                     }
                     GlobalAlloc::VTable(ty, tr) => {
                         if let Some(tr) = tr {
+                            if !tr.bound_vars.is_empty() || has_bound_region(ty) {
+                                continue;
+                            }
                             let t = tr.with_self_ty(ty).skip_binder();
                             let mut methods = Vec::new();
                             for (idx, e) in t.vtable_entries().into_iter().enumerate() {
